@@ -194,16 +194,32 @@ func (e *Engine) mapRange(fr *frame, instr *ssa.Range, m *omap) iter {
 	if opts == nil || !opts.MapOrders || len(live) < 2 {
 		return it
 	}
+	if fr.i.ctx.orderDeviated {
+		// bound: one site per path iterates in a non-default order (every site
+		// in every order, the others default); products of deviations at
+		// several sites are outside the bound
+		return it
+	}
 	perms := mapPerms(len(live))
 	name := fmt.Sprintf("maporder@%s", fr.i.prog.Fset.Position(instr.Pos()))
 	v := fr.i.ctx.NewVar(name, IntSort)
 	fr.i.ctx.Constrain(And(Ge(v, IntConst64(0)), Lt(v, IntConst64(int64(len(perms))))))
 	pick := len(perms) - 1
+	from := len(fr.i.ctx.trace)
 	for k := 0; k < len(perms)-1; k++ {
 		if fr.i.decide(Eq(v, IntConst64(int64(k)))) {
 			pick = k
 			break
 		}
+	}
+	// remember which trace entries are iteration-order choices: paths that
+	// differ only in those must produce the same observable trace
+	for k := from; k < len(fr.i.ctx.trace); k++ {
+		fr.i.ctx.orderIdx = append(fr.i.ctx.orderIdx, k)
+	}
+	if pick != 0 {
+		fr.i.ctx.orderDeviated = true
+		fr.i.ctx.orderSites = append(fr.i.ctx.orderSites, fmt.Sprintf("%s#%d", name, pick))
 	}
 	p := make([]int, len(live))
 	for a, b := range perms[pick] {
